@@ -13,3 +13,23 @@ def installer(name):
         INSTALLERS[name] = f
         return f
     return deco
+
+
+@installer("node_positions")
+def _node_positions(holder):
+    """C44: the positions the compiler recorded for every function that gets a code object
+    (what the attached position table must decode to)."""
+    from Cython.Compiler import ExprNodes
+    holder["facts"] = []
+    orig = ExprNodes.CodeObjectNode.generate_codeobj
+
+    def wrapped(self, code, error_label):
+        func = self.def_node
+        try:
+            holder["facts"].append({"name": str(func.name), "first": int(self.pos[1]),
+                                    "positions": [list(p) for p in (func.node_positions or [])]})
+        except Exception as e:    # never disturb the compilation
+            holder["facts"].append({"error": repr(e)})
+        return orig(self, code, error_label)
+
+    ExprNodes.CodeObjectNode.generate_codeobj = wrapped
